@@ -99,7 +99,8 @@ ApiPods == LET J == {j \in Past : Trace[j].op \in PInformer}
            IN [p \in P |-> PObj(Trace[last(p)])]
 \* The state a freshly started scheduler must hold, whatever the order in which its informers deliver the surviving
 \* objects: the reservations that are usable according to their persisted status, each holding exactly the pods that
-\* were BOUND with the assignment persisted on them (annotation written at pre-bind) and are still running.
+\* were BOUND with the assignment persisted on them (annotation written at pre-bind) and are still running; the bound,
+\* running pods annotated with a reservation that is not usable (yet) are remembered for it, as in steady state.
 \* Dropped, explicitly: reservations whose reserve pod was only assumed (status never written), assignments that
 \* were only assumed (pod never bound), reservations the old scheduler merely kept as unusable until their removal.
 \* Everything else is identical: (L) then demands allocated = sum over the persisted assigned pods in the reserved
@@ -107,9 +108,9 @@ ApiPods == LET J == {j \in Past : Trace[j].op \in PInformer}
 RestartF == LET R == ApiRes
                 P == ApiPods
                 K == {u \in DOMAIN R : Active(R[u])}
+                H == {p \in DOMAIN P : P[p].ra # "" /\ P[p].pnode # "" /\ ~P[p].dead}      \* pods holding a persisted assignment
             IN [res      |-> [u \in K |-> R[u]],
-                assigned |-> [u \in K |-> LET A == {p \in DOMAIN P : P[p].ra = u /\ P[p].pnode # "" /\ ~P[p].dead}
-                                           IN [p \in A |-> P[p].req]]]
+                assigned |-> [u \in K \cup {P[p].ra : p \in H} |-> LET A == {p \in H : P[p].ra = u} IN [p \in A |-> P[p].req]]]
 TRestart == IsEvent("restart") /\ Step(RestartF)
 
 TraceInit == \E i \in Starts : TraceStart(i) /\ Init
